@@ -7,9 +7,9 @@ use multiaddr::{Multiaddr, Protocol};
 
 pub const META: Meta = Meta {
     level: "exploration",
-    rule: "all ordered pairs (original, observed) of multiaddrs of length 0..=2 (quick) / 0..=3 (thorough) over the 11 components {ip4 A, ip4 B, ip6, dns, dns4, dns6, tcp/1, udp/2, quic-v1, p2p X, memory/5}, in every order (multiaddr does not restrict component order). Non-trivial = distinct pairs for which a translation is produced (Some) plus distinct pairs refused although the original starts with IP/DNS.",
+    rule: "all ordered pairs (original, observed) of multiaddrs of length 0..=2 (quick) / 0..=3 (thorough) over the 19 components {ip4 A, ip4 B, ip4 0.0.0.0 / 127.0.0.1 / 255.255.255.255, ip6, ip6 ::ffff:1.2.3.4 (v4-mapped) / ::1.2.3.4 (v4-compatible) / :: / ::1 / fe80::1, dns, dns4, dns6, tcp/1, udp/2, quic-v1, p2p X, memory/5}, in every order (multiaddr does not restrict component order). Non-trivial = distinct pairs for which a translation is produced (Some) plus distinct pairs refused although the original starts with IP/DNS.",
     explanation: "Complete enumeration (E3); oracle computed independently on component lists: Some(observed[0] ++ original[1..]) iff both first components are ip4/ip6/dns/dns4/dns6, else None; compared component-wise and byte-wise.",
-    assumptions: &["one representative per component kind (two for ip4)", "multiaddr parsing/iteration is trusted"],
+    assumptions: &["one representative per component kind plus special IPv4/IPv6 host values", "multiaddr parsing/iteration is trusted"],
 };
 
 fn alphabet() -> Vec<Protocol<'static>> {
@@ -17,6 +17,16 @@ fn alphabet() -> Vec<Protocol<'static>> {
         Protocol::Ip4("192.0.2.1".parse().unwrap()),
         Protocol::Ip4("10.0.0.7".parse().unwrap()),
         Protocol::Ip6("2001:db8::1".parse().unwrap()),
+        // special host values (both sides): IPv4-mapped / IPv4-compatible IPv6, ::, ::1,
+        // link-local, and IPv4 unspecified / loopback / broadcast
+        Protocol::Ip6("::ffff:1.2.3.4".parse().unwrap()),
+        Protocol::Ip6("::1.2.3.4".parse().unwrap()),
+        Protocol::Ip6("::".parse().unwrap()),
+        Protocol::Ip6("::1".parse().unwrap()),
+        Protocol::Ip6("fe80::1".parse().unwrap()),
+        Protocol::Ip4("0.0.0.0".parse().unwrap()),
+        Protocol::Ip4("127.0.0.1".parse().unwrap()),
+        Protocol::Ip4("255.255.255.255".parse().unwrap()),
         Protocol::Dns("example.com".into()),
         Protocol::Dns4("four.example".into()),
         Protocol::Dns6("six.example".into()),
